@@ -385,7 +385,19 @@ fn derive_call_shape(def: &CallDef, symbol_table: &mut BTreeMap<Rc<str>, Shape>)
                 }
             }
             // Return the function's return type
-            fdef.ret.as_ref().clone()
+            match fdef.ret.as_ref() {
+                // The function returns one of its own unconstrained parameters.
+                // That hole is not a binding of the calling scope: what the
+                // caller does with the result must not narrow a binding of the
+                // caller that happens to have the parameter's name.
+                Shape::Hole(pi) if fdef.args.contains_key(&pi.val) => {
+                    Shape::Narrowed(NarrowedShape {
+                        pos: def.pos.clone(),
+                        types: NarrowingShape::Any,
+                    })
+                }
+                ret => ret.clone(),
+            }
         }
         Shape::Hole(_) => {
             // Unknown function, derive arg shapes but return Any
